@@ -689,9 +689,18 @@ fn main() {
         n.ends_with(".contract_class.json") && !n.ends_with(".compiled_contract_class.json")
     });
     if quick {
-        while files.len() > 8 {
+        // always keep the classes that exercise every builtin, constants segments and circuits
+        let pinned = |p: &PathBuf| {
+            let n = p.file_name().unwrap().to_string_lossy().to_string();
+            n.starts_with("max_entrypoint__") || n.starts_with("circuit_contract__") || n.starts_with("libfuncs_coverage__")
+        };
+        let mut keep: Vec<PathBuf> = files.iter().filter(|p| pinned(p)).cloned().collect();
+        files.retain(|p| !pinned(p));
+        while files.len() > 5 {
             files.swap_remove(rng.below(files.len() as u64) as usize);
         }
+        keep.extend(files);
+        files = keep;
     }
     for ch in files.chunks(3) {
         jobs.push(Job::Files(ch.to_vec()));
